@@ -24,6 +24,7 @@ META = {
     "encoded": ["memory.MemoryMap._translate", "memory.MemoryMap.all_resources", "memory.MemoryMap.find_resource",
                 "memory.MemoryMap.decode_address", "memory.MemoryMap.add_window", "memory.MemoryMap.add_resource",
                 "memory._RangeMap.get", "memory._RangeMap.insert", "memory.ResourceInfo.__init__"],
+    "also": 'lookups, an abandoned all_resources() traversal and a stranger lookup after every add at every level; every direct child also mapped into an unrelated second root; multi-part window names with integer parts; internal errors of lookups are violations',
     "bounds": "tree shapes enumerated: depth <= 3, <= 3 items per map, named/anonymous windows, ratio-1 and sparse "
               "windows at any level, dense windows of ratio 2/4/8 over leaf maps; resource addresses/sizes and window "
               "bases symbolic (explicit or implicit), decoded address symbolic over the whole root space, lookups of "
